@@ -52,17 +52,22 @@ impl ImdsClient {
         let mut headers = HashMap::new();
         headers.insert("Metadata".to_string(), "true".to_string());
 
+        // read the key id and the key in ONE round-trip: the id must name the key that signs
+        let (key_guid, key) = match self
+            .key_keeper_shared_state
+            .get_current_key()
+            .await
+            .unwrap_or(None)
+        {
+            Some(k) => (Some(k.guid), Some(k.key)),
+            None => (None, None),
+        };
+
         hyper_client::get(
             &url,
             &headers,
-            self.key_keeper_shared_state
-                .get_current_key_guid()
-                .await
-                .unwrap_or(None),
-            self.key_keeper_shared_state
-                .get_current_key_value()
-                .await
-                .unwrap_or(None),
+            key_guid,
+            key,
             logger::write_warning,
         )
         .await
